@@ -2081,7 +2081,12 @@ def symbolic_mode(query: Optional[SymbolicExpression] = None, mode: EQLMode = EQ
     :param query: Optional symbolic expression to also enter/exit as a context.
     """
     prev_mode = _symbolic_mode.get()
+    prev_stack = SymbolicExpression._symbolic_expression_stack_
     try:
+        if mode is None:
+            # a query is doing work (see An.evaluate / The.evaluate): what user code builds meanwhile - a predicate that
+            # writes a query of its own, in a block of its own - does not belong to the query blocks the caller has open.
+            SymbolicExpression._symbolic_expression_stack_ = []
         if query is not None:
             query.__enter__(in_rule_mode=True)
         _set_symbolic_mode(mode)
@@ -2089,6 +2094,7 @@ def symbolic_mode(query: Optional[SymbolicExpression] = None, mode: EQLMode = EQ
     finally:
         if query is not None:
             query.__exit__()
+        SymbolicExpression._symbolic_expression_stack_ = prev_stack
         _set_symbolic_mode(prev_mode)
 
 
